@@ -1,8 +1,122 @@
-//! C10 — see /verif/DESIGN.md §3.
-use vf_core::{Args, Ctx};
+//! C10 — glyph variation deltas survive encoding, IUP optimisation and
+//! application. See /verif/DESIGN.md §3 "C10".
+//!
+//! Oracles (all against reference models in `model.rs`, written from the
+//! OpenType spec, never calling the library):
+//!  (i)  `iup_delta_optimize`: every delta marked optional is reproduced by
+//!       spec inference from the retained neighbours within the tolerance
+//!       (euclidean, as documented in `can_iup_in_between`);
+//!  (ii) `Gvar` builder -> bytes -> independent decoder + read-fonts ->
+//!       spec inference: required deltas exactly, optional within tolerance;
+//!  (iii) skrifa drawing == default + sum(scalar x delta) up to the scaler's
+//!       final rounding step, for harness-built fonts and corpus fonts.
+use serde_json::json;
+use vf_core::{Args, Ctx, PanicPolicy, Rng};
+
+pub mod model;
+pub mod wl_draw;
+pub mod wl_gvar;
+pub mod wl_iup;
 
 pub const REPLAY: Option<fn(&mut Ctx, &Args, &serde_json::Value, Option<&[u8]>)> = None;
 
 pub fn run(ctx: &mut Ctx, _args: &Args) {
-    ctx.rule = "stub".into();
+    ctx.policy = PanicPolicy::Any;
+    ctx.rule = "distinct cases (digest of the input) where: an optimiser input has a contour with both retained and omitted deltas; \
+                or a compiled font has a tuple with omitted points / shared tuple / shared point numbers; \
+                or a drawn (font, glyph, location) has an active region with a scalar strictly between 0 and 1 or with inferred deltas"
+        .into();
+    ctx.assumptions = vec![
+        "optimiser tolerance is euclidean per point ((dx^2+dy^2) <= tol^2), as in can_iup_in_between; comparison slack 1e-9 for the library's f64 arithmetic".into(),
+        "non-integer input deltas: retained neighbours are rounded on output, so the inferred value may move by <= sqrt(0.5); that slack is added only for such inputs".into(),
+        "regions generated are well-formed (start <= peak <= end, not straddling zero)".into(),
+        "coordinates within +-8000 and deltas within +-4000 font units (extreme magnitudes overflow 16.16 in the scaler: C20's subject)".into(),
+        "drawing tolerance: FreeType path style 0.5 (final rounding of the accumulated delta to integer units) + eps; HarfBuzz path style eps; \
+         eps = per active tuple dmax*k/2^17 (16.16 tuple scalar, k axes) + 2^-16 (+ span/2^17 + 2^-15 for interpolation slope when sparse), f32 ulps for the f32 path"
+            .into(),
+        "drawing oracle covers simple glyphs whose contours start on-curve; composites and contours starting off-curve are counted and skipped".into(),
+    ];
+
+    // (i) optimiser
+    wl_iup::run_exhaustive(ctx);
+    wl_iup::run_random(ctx);
+
+    // (ii) dedicated probe: tuples whose deltas are all optional
+    if ctx.mine(0) {
+        wl_gvar::probe_all_optional(ctx);
+    }
+
+    // (ii) + (iii) fonts built by the harness
+    let budgets: [(&'static str, usize, usize); 5] = [
+        ("small", 2500, 30_000),
+        ("shared", 600, 6_000),
+        ("runs", 500, 5_000),
+        ("big", 48, 480),
+        ("long-offsets", 16, 64),
+    ];
+    let mut item = 0usize;
+    for (profile, q, t) in budgets {
+        let n = ctx.tier.pick(q, t);
+        for i in 0..n {
+            item += 1;
+            if !ctx.mine(item) {
+                continue;
+            }
+            let mut rng = Rng::derive(ctx.seed, &format!("c10-font-{}", profile), i as u64);
+            let spec = wl_gvar::gen_font(ctx, &mut rng, profile, i as u64);
+            let Some(gvar_bytes) = wl_gvar::check_font_roundtrip(ctx, &spec) else {
+                continue;
+            };
+            if profile == "long-offsets" && i % 4 != 0 {
+                continue;
+            }
+            match vf_core::guard(|| wl_draw::build_font(&spec, &gvar_bytes)) {
+                Ok(Ok(font)) => {
+                    let gids: Vec<u32> = (0..spec.glyphs.len() as u32).take(if profile == "long-offsets" { 2 } else { 64 }).collect();
+                    let locs = match profile {
+                        "big" | "long-offsets" => 6,
+                        "runs" => 10,
+                        _ => ctx.tier.pick(14, 24),
+                    };
+                    let id = format!("built-{}-{}", profile, i);
+                    let st = wl_draw::check_draw_font(ctx, &font, &id, &gids, locs, &mut rng, true, spec.digest());
+                    if st.compared > 0 {
+                        ctx.count("draw_fonts_built_and_compared", 1);
+                    }
+                }
+                Ok(Err(e)) => {
+                    ctx.count("draw_font_build_failed", 1);
+                    ctx.sample_by_kind("font_build_failed", json!({"error": e, "case": spec.summary()}));
+                }
+                Err(p) => {
+                    ctx.inconclusive(format!("font build panicked: {} {}:{}", p.msg, p.file, p.line));
+                }
+            }
+        }
+    }
+
+    // (iii) corpus variable fonts with their own gvar
+    let fonts = vf_core::corpus_fonts();
+    let mut item = 0usize;
+    let per_font_glyphs = ctx.tier.pick(400usize, 4000);
+    for f in fonts {
+        let Ok(font) = read_fonts::FontRef::new(&f.data) else { continue };
+        use read_fonts::TableProvider;
+        if font.gvar().is_err() || font.glyf().is_err() {
+            continue;
+        }
+        let ng = font.maxp().map(|m| m.num_glyphs()).unwrap_or(0) as usize;
+        ctx.label("corpus_variable_fonts", &f.name);
+        let step = (ng / per_font_glyphs).max(1);
+        for gid in (0..ng).step_by(step) {
+            item += 1;
+            if !ctx.mine(item) {
+                continue;
+            }
+            let mut rng = Rng::derive(ctx.seed, &f.name, gid as u64);
+            let locs = ctx.tier.pick(8, 20);
+            let st = wl_draw::check_draw_font(ctx, &f.data, &f.name, &[gid as u32], locs, &mut rng, false, 0);
+            ctx.count("draw_corpus_comparisons", st.compared);
+        }
+    }
 }
